@@ -8,7 +8,7 @@ import subprocess
 
 from . import pymodel as M
 
-REPO = os.environ.get("VERIF_REPO", "/repo")
+REPO = os.environ.get("VERIF_REPO") or os.environ.get("VP_RUN_REPO") or "/repo"
 ZIC = "/usr/sbin/zic"
 SPD = 86400
 
